@@ -928,7 +928,10 @@ func (p *printer) expr1(expr ast.Expr, prec1, depth int) {
 		} else {
 			wasIndented = p.possibleSelectorExpr(x.Fun, token.HighestPrec, depth)
 		}
-		if x.NoParenEnd != token.NoPos {
+		// command style (no parentheses) needs at least one argument:
+		// 'echo' without arguments is not a call any more when parsed again
+		cmdStyle := x.NoParenEnd != token.NoPos && len(x.Args) > 0
+		if cmdStyle {
 			p.print(blank)
 			depth++
 		} else {
@@ -943,7 +946,7 @@ func (p *printer) expr1(expr ast.Expr, prec1, depth int) {
 		} else {
 			p.exprList(x.Lparen, x.Args, depth, commaTerm, x.Rparen, false)
 		}
-		if x.NoParenEnd == token.NoPos {
+		if !cmdStyle {
 			p.print(x.Rparen, token.RPAREN)
 		}
 		if wasIndented {
